@@ -331,7 +331,10 @@ class Gen:
         if r < 11:
             return ["bpar", self.cond(depth - 1, False)]
         if allow_bare:
-            return ["nz", self.bare_numeric(depth)]
+            x = self.bare_numeric(depth)
+            if x[0] == "not":  # the tool refuses a bare numeric condition that starts with NOT ("IF NOT 5 THEN")
+                x = ["par", x]
+            return ["nz", x]
         return ["cmp", "<>", self.sumlevel(depth), ["num", "0", 0]]
 
     def sumlevel(self, depth):
